@@ -15,8 +15,60 @@ from .inline import norm_text
 class PathDomain(Domain):
     MAX_STATES = 4096
 
-    def __init__(self, params=()):
+    def __init__(self, params=(), consts=None):
         self.params = set(params)
+        self.consts = dict(consts or {})     # canonical expression text -> Python constant assumed for it (case analysis)
+
+    def _fold(self, t):
+        """truth of a test made of assumed constants, literals, comparisons, `in`, and/or/not; None when undecided"""
+        def val(e):
+            txt = norm_text(e)
+            if txt in self.consts:
+                return ('v', self.consts[txt])
+            if isinstance(e, ast.Constant):
+                return ('v', e.value)
+            if isinstance(e, (ast.Tuple, ast.List)):
+                xs = [val(x) for x in e.elts]
+                return ('v', tuple(x[1] for x in xs)) if all(x is not None for x in xs) else None
+            if isinstance(e, ast.UnaryOp) and isinstance(e.op, ast.Not):
+                v = val(e.operand)
+                return ('v', not v[1]) if v is not None else None
+            if isinstance(e, ast.BoolOp):
+                vs = [val(x) for x in e.values]
+                if isinstance(e.op, ast.And):
+                    if any(v is not None and not v[1] for v in vs):
+                        return ('v', False)
+                    return ('v', True) if all(v is not None for v in vs) else None
+                if any(v is not None and v[1] for v in vs):
+                    return ('v', True)
+                return ('v', False) if all(v is not None for v in vs) else None
+            if isinstance(e, ast.Compare) and len(e.ops) == 1:
+                a, b = val(e.left), val(e.comparators[0])
+                if a is None or b is None:
+                    return None
+                op = e.ops[0]
+                try:
+                    if isinstance(op, ast.Eq):
+                        return ('v', a[1] == b[1])
+                    if isinstance(op, ast.NotEq):
+                        return ('v', a[1] != b[1])
+                    if isinstance(op, ast.Lt):
+                        return ('v', a[1] < b[1])
+                    if isinstance(op, ast.LtE):
+                        return ('v', a[1] <= b[1])
+                    if isinstance(op, ast.Gt):
+                        return ('v', a[1] > b[1])
+                    if isinstance(op, ast.GtE):
+                        return ('v', a[1] >= b[1])
+                    if isinstance(op, ast.In):
+                        return ('v', a[1] in b[1])
+                    if isinstance(op, ast.NotIn):
+                        return ('v', a[1] not in b[1])
+                except TypeError:
+                    return None
+            return None
+        v = val(t)
+        return None if v is None else bool(v[1])
 
     # state = (env, facts, events)   env: tuple of (name, expr-text) ; facts: frozenset (truth, text) ; events: tuple
     @staticmethod
@@ -82,7 +134,15 @@ class PathDomain(Domain):
         t, tr = test, truth
         while isinstance(t, ast.UnaryOp) and isinstance(t.op, ast.Not):
             t, tr = t.operand, not tr
-        text = norm_text(self._canon(t, env))
+        canon = self._canon(t, env)
+        text = norm_text(canon)
+        if self.consts:
+            try:
+                known = self._fold(ast.parse(canon, mode='eval').body)
+            except SyntaxError:
+                known = None
+            if known is not None:
+                return state if known == tr else None
         if text in ('True', 'False'):
             return state if (text == 'True') == tr else None
         if (not tr, text) in facts:
@@ -124,8 +184,8 @@ class Path:
         return [e for e in self.events if e[0] == 'call' and (pred is None or pred(e[1]))]
 
 
-def paths_of(fn_node, params=()):
+def paths_of(fn_node, params=(), consts=None):
     body = [s for s in fn_node.body if not (isinstance(s, ast.Expr) and isinstance(s.value, ast.Constant))]
-    dom = PathDomain(params)
+    dom = PathDomain(params, consts)
     exits = Flow(dom).run(body, {PathDomain.init()})
     return [Path(e.kind, e.state) for e in exits if e.kind in ('return', 'fall')]
